@@ -25,6 +25,7 @@ C = 'pybufrkit/constants.py'
 D = 'pybufrkit/descriptors.py'
 U = 'pybufrkit/utils.py'
 Q = 'pybufrkit/dataquery.py'
+G = 'pybufrkit/decoder.py'
 
 MUTS = [
     # ---- stage A: constants ------------------------------------------------------------------
@@ -118,10 +119,37 @@ MUTS = [
      "        if c != PATH_SEPARATOR_ATTRIB and self.current_state == STATE_START_PARSING:"),
     ('D23', 'preserve', 'C15', Q, "        token, self.current_token = self.current_token, ''\n", "        token = self.current_token\n        self.current_token = ''\n"),
     ('D24', 'preserve', 'C15', Q, "        if len(self.current_slice_elements) == 0:", "        if self.current_slice_elements == []:"),
+    # ---- stage E: the stream scanner decoder.generate_bufr_message (flow function, C11_src_generate_eq) ----------
+    ('E1', 'change', 'C11', G, "            idx_start += len(bufr_message.serialized_bytes)\n", "            idx_start += len(bufr_message.serialized_bytes) - 1\n"),
+    ('E2', 'change', 'C12', G, "                    idx_start += bufr_message.length.value\n", "                    idx_start += 1\n"),
+    ('E3', 'change', 'C11', G, "                matched = sr.run(bufr_message)\n", "                matched = not sr.run(bufr_message)\n"),
+    ('E4', 'change', 'C11', G, "bufr_message.serialized_bytes = s[idx_start: idx_start + bufr_message.length.value]",
+     "bufr_message.serialized_bytes = s[:idx_start + bufr_message.length.value]"),
+    ('E5', 'change', 'C11', G, "        idx_start = s.find(MESSAGE_START_SIGNATURE, idx_start)\n", "        idx_start = s.find(MESSAGE_START_SIGNATURE, idx_start + 1)\n"),
+    ('E6', 'change', 'C11', G, "                    TableGroupCacheManager.invalidate()\n", ""),
+    ('E7', 'change', 'C12', G, "            if not continue_on_error:\n                raise e\n", "            if continue_on_error:\n                raise e\n"),
+    ('E8', 'change', 'C11', G, "        if idx_start < 0:\n            return\n", "        if idx_start <= 0:\n            return\n"),
+    ('E9', 'change', 'C12', G, "            if info_only:\n                idx_start += 1\n", "            if info_only:\n                idx_start += 4\n"),
+    ('E10', 'change', 'C12', G, "        except PyBufrKitError as e:\n", "        except Exception as e:\n"),
+    ('E11', 'change', 'C11', G, "                if matched and not info_only:\n", "                if matched:\n"),
+    ('E12', 'change', 'C12', G, "                except PyBufrKitError:\n                    idx_start += 1\n", "                except PyBufrKitError:\n                    idx_start += bufr_message.length.value\n"),
+    ('E13', 'change', 'C11', G, "                    s[idx_start:], start_signature=None, info_only=info_only, *args, **kwargs\n", "                    s[idx_start:], start_signature=None, info_only=False, *args, **kwargs\n"),
+    ('E14', 'unsupported', 'C11', G, "            matched = True\n            if filter_expr:", "            if filter_expr:"),
+    ('E15', 'unsupported', 'C11', G, "            if matched:\n                yield bufr_message\n", "            if matched:\n                yield bufr_message\n                break\n"),
+    ('E16', 'preserve', 'C11', G, "            idx_start += len(bufr_message.serialized_bytes)\n\n            if matched:\n                yield bufr_message\n",
+     "            if matched:\n                yield bufr_message\n\n            idx_start += len(bufr_message.serialized_bytes)\n"),
+    ('E17', 'preserve', 'C11', G, '@renamegen matched is_matched', ''),
+    ('E18', 'preserve', 'C11', G, "        if idx_start < 0:\n            return\n", "        if idx_start == -1:\n            return\n"),
+    ('E19', 'preserve', 'C12', G, "            print('Continuing on next message and ignoring error: {}'.format(e), file=sys.stderr)\n", "            print('Continuing with the next message, ignoring: {}'.format(e), file=sys.stderr)\n"),
 ]
 
 
 def apply(text, a, b):
+    if a.startswith('@renamegen '):
+        _, old, new = a.split()
+        i = text.index('def generate_bufr_message(')
+        body = re.sub(r'\b%s\b' % old, new, text[i:])
+        return text[:i] + body
     if a.startswith('@renameparse '):
         _, old, new = a.split()
         i = text.index('    def parse(self, path_expr):')
